@@ -249,6 +249,10 @@ func VerifH_C18_ack() {
 		if uint32(c.openStreams) >= streams && streams <= 1<<31-1 {
 			vAssert(!c.CanOpenStream(), "C18.ack.client.max-concurrent-streams")
 		}
+		// and as many as it allows, whatever 32-bit value that is
+		if int64(c.openStreams) < int64(streams) {
+			vAssert(c.CanOpenStream(), "C18.ack.client.streams-below-the-limit-can-be-opened")
+		}
 	}
 	vCover("C18.ack.omits-some", has[4] && !has[1] && !has[3])
 }
